@@ -84,11 +84,22 @@ def _bare(case):
             "chain": [order.index(i) for i in range(nm)], "id": "bare%d" % case["i"], "name": "bare%d" % case["i"], "overhangs": ov}
 
 
+def _ids(m, case):
+    """own stream: what the input records are called is no part of the formula - in one case in five every module (and now
+    and then the vector as well) carries the library's default product name, as products of earlier assemblies do"""
+    r = gen.rng_for(case["seed"], PROP, "input-ids", case["kind"], case["enzyme"], case["i"])
+    if r.random() < 0.2:
+        for s in m["modules"] + ([m["vector"]] if r.random() < 0.3 else []):
+            s["id"] = s["name"] = "assembly"
+        m["default_named_inputs"] = True
+    return m
+
+
 def materialise(case):
     if case["kind"] == "assembly":
-        return _embedded.materialise_assembly(case)
+        return _ids(_embedded.materialise_assembly(case), case)
     if case["kind"] == "bare":
-        return _bare(case)
+        return _ids(_bare(case), case)
     return case
 
 
@@ -127,6 +138,8 @@ def execute(mat, ctx):
     before = ctx.counters["c01_judged"]
     if mat["kind"] == "assembly-mat":
         _mon.tag = {"kind": "generated"}
+        if mat.get("default_named_inputs"):
+            ctx.count("c01_assemblies_of_inputs_all_called_assembly")
         res = _embedded.run_assembly(mat, ctx)
         sig = ["gen", mat["enzyme"], mat["vector"]["seq"], [m["seq"] for m in mat["modules"]]]
         sample = {"kind": "generated", "enzyme": mat["enzyme"], "vector": mat["vector"]["seq"],
